@@ -69,7 +69,8 @@ func ConcClassify(point string) string {
 
 // TearClassify additionally parks a writer between the content write and the sidecar write.
 func TearClassify(point string) string {
-	if point == "fs.add.content-written" {
+	if point == "fs.add.content-written" || point == "fs.get.meta-read" {
+		// a writer between its two file writes, a reader between the sidecar and the content
 		return "mid"
 	}
 	return ConcClassify(point)
